@@ -153,6 +153,9 @@ func (r *Run) Explore(cfg explore.Config, rule string, body func(*explore.Ctx)) 
 	if only := os.Getenv("VERIF_ONLY"); only != "" && !strings.Contains(cfg.Name, only) {
 		return &Part{Name: cfg.Name}
 	}
+	if explore.StopAll.Load() {
+		return &Part{Name: cfg.Name} // a call that does not return was observed: report what there is
+	}
 	if skipInChild(cfg.Name) {
 		return &Part{Name: cfg.Name}
 	}
@@ -188,6 +191,9 @@ func (r *Run) BFS(cfg explore.BFSConfig, rule string, body func(*explore.Ctx)) *
 	}
 	if only := os.Getenv("VERIF_ONLY"); only != "" && !strings.Contains(cfg.Name, only) {
 		return &Part{Name: cfg.Name}
+	}
+	if explore.StopAll.Load() {
+		return &Part{Name: cfg.Name} // a call that does not return was observed: report what there is
 	}
 	if cfg.Deadline.IsZero() {
 		cfg.Deadline = r.deadline
